@@ -27,7 +27,7 @@ GATES = {
     "correspondent_outside_left_edge": 1, "correspondent_outside_right_edge": 1,
     "half_integer_at_even_column": 1, "half_integer_at_odd_column": 1,
     "nan_right_value_at_correspondent": 1, "mismatch_only_at_interval_end": 1, "pixel_already_invalid": 1,
-    "pipeline_validation_steps": 5, "pixels_classified": 20000, "validation_steps_with_filling_watched": 2,
+    "pipeline_validation_steps": 5, "other_map_with_an_interval_that_is_not_the_mirror": 5, "pixels_classified": 20000, "validation_steps_with_filling_watched": 2,
 }
 INVALID = 0b1111000011
 OCC, MIS = 256, 512
@@ -198,7 +198,14 @@ def run_case(case, ctx):
         mL[:, :off] = mL[:, -off:] = 1
     v = validation.AbstractValidation(validation_method="cross_checking_accurate", cross_checking_threshold=thr)
     left_ds = make_disp_ds(dL, mL, off, iv)
-    right_ds = make_disp_ds(dR, np.zeros((H, W)), off, (-iv[1], -iv[0]))
+    # the other map carries its own interval: the mirror of the checked map's one, or (a user-supplied right interval, right
+    # grids) an unrelated one - the rule only speaks of the interval of the map being checked
+    riv = (-iv[1], -iv[0])
+    if case["i"] % 3 == 1:
+        riv = (int(rng.integers(-6, 1)), int(rng.integers(0, 7)))
+    ctx.gate("other_map_with_an_interval_that_is_not_the_mirror", int(riv != (-iv[1], -iv[0])))
+    desc["other_interval"] = list(riv)
+    right_ds = make_disp_ds(dR, np.zeros((H, W)), off, riv)
     dR_before = dR.copy()
     out = v.disparity_checking(left_ds, right_ds)
     if not gen.same(right_ds["disparity_map"].data, dR_before):
